@@ -833,17 +833,23 @@ def unroll_circuit_op(
         for op in m:
             op_untagged = op.untagged
             if isinstance(op_untagged, circuits.CircuitOperation):
-                if deep:
-                    op_untagged = op_untagged.replace(
-                        circuit=unroll_circuit_op(
-                            op_untagged.circuit, deep=deep, tags_to_check=tags_to_check
+                if tags_to_check is None or set(tags_to_check).intersection(op.tags):
+                    # Unroll outside-in: dissolving an inner sub-circuit first would let its control
+                    # keys bind to measurements of an earlier repetition of that sub-circuit.
+                    unrolled = op_untagged.mapped_circuit()
+                    if deep:
+                        unrolled = unroll_circuit_op(
+                            unrolled, deep=deep, tags_to_check=tags_to_check
                         )
-                    )
-                to_zip.append(
-                    op_untagged.mapped_circuit()
-                    if (tags_to_check is None or set(tags_to_check).intersection(op.tags))
-                    else circuits.Circuit(op_untagged.with_tags(*op.tags))
-                )
+                    to_zip.append(unrolled)
+                else:
+                    if deep:
+                        op_untagged = op_untagged.replace(
+                            circuit=unroll_circuit_op(
+                                op_untagged.circuit, deep=deep, tags_to_check=tags_to_check
+                            )
+                        )
+                    to_zip.append(circuits.Circuit(op_untagged.with_tags(*op.tags)))
             else:
                 to_zip.append(circuits.Circuit(op))
         return circuits.Circuit.zip(*to_zip).moments
